@@ -1,0 +1,17 @@
+//go:build verif && !windows
+
+// Contracts for deductive verification (comment-only; compiled only with -tags verif).
+package netpoll
+
+// ---- C18 (netpoll transport, sequential slice): Shutdown hands the caller's context - the one that carries the
+// engine's exit wait deadline - to the event loop's graceful shutdown, unchanged, and returns what that returns;
+// when no event loop was started it returns nil without waiting.
+//@ ghost var npAsked bool
+//@ func transporter.Shutdown(t, ctx) err
+//@   props C18
+//@   abstract
+//@   noinline
+//@   modifies npAsked
+//@   ghostset-at-entry npAsked = false
+//@   assert before Shutdown: arg1 == ctx && !npAsked
+//@   ghostset after Shutdown: npAsked = true
